@@ -269,6 +269,11 @@ func (v *Verifier) boxIface(st *State, val Val, from types.Type, to *Shape) Val 
 	if p, ok := val.(PtrVal); ok && p.Loc != nil {
 		return OpaqueVal{Sh: to, ID: id, Nil: c.False()}
 	}
+	if p, ok := val.(PtrVal); ok && p.Loc == nil && externalStruct(from) {
+		// a pointer to an object of an external package (bytes.Reader, ...) seen through an interface:
+		// the interface value has the identity of the object, so ghost state keyed by it is shared
+		id = p.Ref
+	}
 	st.assume(c.Eq(v.dynTag(id), v.typeCode(from)))
 	pl := v.dynPayload(id, from)
 	func() {
